@@ -91,7 +91,8 @@ pub enum Incoming {
     /// ids pushed as ambient properties: typed values or hex strings (plain runtime)
     /// `part`: 0 both ids, 1 only the trace id, 2 only the span id (used only where no trace is active yet,
     /// so that the per-key shadowing of ambient properties stays out of the model)
-    Ids { trace: u128, span: u64, as_text: bool, part: u8 },
+    /// `repr`: how the ids are captured - 0 typed values, 1 hex text, 2 plain integers (u128 / u64)
+    Ids { trace: u128, span: u64, repr: u8, part: u8 },
     /// a traceparent header pushed through `Traceparent::push` (traceparent runtime)
     Header { text: String },
 }
@@ -222,6 +223,15 @@ fn text(v: Option<emit::Value>) -> Option<String> {
     v.map(|v| v.to_string())
 }
 
+/// An id as the hex text the model speaks: typed ids and hex text render as such; an id captured as a plain integer is
+/// a number (its decimal rendering is not hex text, however many digits it has) and is rendered in hex here.
+fn id_text(v: Option<emit::Value>, width: usize) -> Option<String> {
+    v.map(|v| match v.by_ref().cast::<u128>() {
+        Some(n) => format!("{n:0width$x}"),
+        None => v.to_string(),
+    })
+}
+
 fn record_event(log: &Shared, evt: &emit::Event<impl Props>, via: Option<u32>) {
     let p = evt.props();
     let is_span = p.pull::<emit::Kind, _>("evt_kind") == Some(emit::Kind::Span);
@@ -236,9 +246,9 @@ fn record_event(log: &Shared, evt: &emit::Event<impl Props>, via: Option<u32>) {
         is_span,
         sid: p.pull::<u32, _>("sid"),
         eid: p.pull::<u32, _>("eid"),
-        trace_id: text(p.get("trace_id")),
-        span_id: text(p.get("span_id")),
-        span_parent: text(p.get("span_parent")),
+        trace_id: id_text(p.get("trace_id"), 32),
+        span_id: id_text(p.get("span_id"), 16),
+        span_parent: id_text(p.get("span_parent"), 16),
         extent,
         lvl: text(p.get("lvl")),
         err: text(p.get("err")),
@@ -1060,29 +1070,45 @@ fn hex_ids(inc: &Incoming) -> Option<(Option<String>, Option<String>, bool)> {
 /// Partial incoming ids are only used where no trace is active; elsewhere the node pushes both ids.
 fn effective_incoming(st: &Strand, inc: &Incoming) -> Incoming {
     match inc {
-        Incoming::Ids { trace, span, as_text, part } if *part != 0 && st.in_trace() => Incoming::Ids {
+        Incoming::Ids { trace, span, repr, part } if *part != 0 && st.in_trace() => Incoming::Ids {
             trace: *trace,
             span: *span,
-            as_text: *as_text,
+            repr: *repr,
             part: 0,
         },
         other => other.clone(),
     }
 }
 
-fn ids_frame(w: &Arc<World>, trace: u128, span: u64, as_text: bool, part: u8) -> Frame<TheCtxt> {
+fn ids_frame(w: &Arc<World>, trace: u128, span: u64, repr: u8, part: u8) -> Frame<TheCtxt> {
     let t = emit::TraceId::from_u128(trace).unwrap();
     let s = emit::SpanId::from_u64(span).unwrap();
     let (ts, ss) = (t.to_string(), s.to_string());
     let mut props: Vec<(&str, emit::Value)> = Vec::new();
     if part != 2 {
-        props.push(("trace_id", if as_text { emit::Value::from(ts.as_str()) } else { emit::Value::from_any(&t) }));
+        props.push((
+            "trace_id",
+            match repr {
+                1 => emit::Value::from(ts.as_str()),
+                2 => emit::Value::from(trace),
+                _ => emit::Value::from_any(&t),
+            },
+        ));
     }
     if part != 1 {
-        props.push(("span_id", if as_text { emit::Value::from(ss.as_str()) } else { emit::Value::from_any(&s) }));
+        props.push((
+            "span_id",
+            match repr {
+                1 => emit::Value::from(ss.as_str()),
+                2 => emit::Value::from(span),
+                _ => emit::Value::from_any(&s),
+            },
+        ));
     }
-    if as_text {
-        w.probe("incoming_ids_as_hex_text");
+    match repr {
+        1 => w.probe("incoming_ids_as_hex_text"),
+        2 => w.probe("incoming_ids_as_integers"),
+        _ => {}
     }
     match part {
         1 => w.probe("incoming_trace_id_only"),
@@ -1124,8 +1150,8 @@ fn run_incoming_sync(w: &Arc<World>, st: &mut Strand, inc: &Incoming, body: &Arc
         Incoming::Ids { .. } => {
             let eff = effective_incoming(st, inc);
             let inc = &eff;
-            let Incoming::Ids { trace, span, as_text, part } = inc else { unreachable!() };
-            let frame = ids_frame(w, *trace, *span, *as_text, *part);
+            let Incoming::Ids { trace, span, repr, part } = inc else { unreachable!() };
+            let frame = ids_frame(w, *trace, *span, *repr, *part);
             push_incoming_model(st, inc);
             frame.call(|| {
                 observe(w, st, "inside pushed incoming ids");
@@ -1280,8 +1306,8 @@ fn run_async<'a>(w: &'a Arc<World>, st: &'a mut Strand, nodes: &'a Arc<Vec<S>>) 
                 S::Incoming(inc @ Incoming::Ids { .. }, body) => {
                     let eff = effective_incoming(st, inc);
                     let inc = &eff;
-                    let Incoming::Ids { trace, span, as_text, part } = inc else { unreachable!() };
-                    let frame = ids_frame(w, *trace, *span, *as_text, *part);
+                    let Incoming::Ids { trace, span, repr, part } = inc else { unreachable!() };
+                    let frame = ids_frame(w, *trace, *span, *repr, *part);
                     w.probe("incoming_ids_pushed");
                     push_incoming_model(st, inc);
                     frame.in_future(run_async(w, st, body)).await;
@@ -1462,10 +1488,18 @@ pub fn gen_nodes(ch: &mut Choices, cfg: &GenCfg, depth: u32, budget: &mut u32, n
                     };
                     Incoming::Header { text }
                 } else {
+                    let repr = ch.weighted(&[3, 3, 2]) as u8;
+                    // integers are drawn so that their decimal rendering has as many digits as the hex form of an id
+                    // has (16 / 32): a number is a number, however much its digits look like hex text
+                    let (trace, span) = if repr == 2 && ch.chance(1, 2) {
+                        (12_345_678_901_234_567_890_123_456_789_012u128 + *next as u128, 1_234_567_890_123_456u64 + *next as u64)
+                    } else {
+                        (0xabc0_0000_0000_0000_0000_0000_0000_0000u128 + *next as u128, 0xdef0_0000_0000_0000u64 + *next as u64)
+                    };
                     Incoming::Ids {
-                        trace: 0xabc0_0000_0000_0000_0000_0000_0000_0000u128 + *next as u128,
-                        span: 0xdef0_0000_0000_0000u64 + *next as u64,
-                        as_text: ch.chance(1, 2),
+                        trace,
+                        span,
+                        repr,
                         part: ch.weighted(&[4, 1, 1]) as u8,
                     }
                 };
